@@ -14,7 +14,8 @@ COMPONENT = "tcpsession"
 HARNESS = "harness/c01_tcp_stream.cpp"
 ANCHOR_FILES = ["include/iora/network/detail/tcp_engine.hpp", "include/iora/network/transport_impl.hpp",
                 "include/iora/network/transport_types.hpp", "include/iora/network/event_batch_processor.hpp"]
-LEAN_FILES = ["IoraModel.Model.TcpSession", "IoraModel.Lemmas.TcpSession", "IoraModel.Gen.TcpSession", "IoraModel.Props.C01"]
+LEAN_FILES = ["IoraModel.Model.TcpSession", "IoraModel.Model.TcpWake", "IoraModel.Lemmas.TcpSession", "IoraModel.Lemmas.TcpWake",
+              "IoraModel.Lemmas.TcpExt", "IoraModel.Gen.TcpSession", "IoraModel.Props.C01"]
 
 OBLIGATIONS = [
     {"id": "C01_T1", "theorem": "Iora.C01.T1_exactly_once_in_order", "kind": "proved",
@@ -22,7 +23,7 @@ OBLIGATIONS = [
     {"id": "C01_T1_step", "theorem": "Iora.C01.T1_step", "kind": "proved",
      "statement": "the conservation invariant is preserved by every single step from every state that satisfies it"},
     {"id": "C01_T2", "theorem": "Iora.C01.T2_no_cleartext_on_tls", "kind": "proved",
-     "statement": "on a TLS session no history ever produces a plain ::send; a step that stays in the handshake state leaves the wire untouched"},
+     "statement": "on a TLS session no history ever produces a plain ::send or a plain ::recv; a step that stays in the handshake state leaves the wire untouched"},
     {"id": "C01_T3", "theorem": "Iora.C01.T3_rearm", "kind": "proved",
      "statement": "after every step of every history (unconditional MOD, as extracted): open and queue non-empty => EPOLLOUT registered, by an epoll_ctl issued after the last write attempt (ET and LT)"},
     {"id": "C01_T3_mod_needed", "theorem": "Iora.C01.T3_needs_unconditional_mod", "kind": "proved",
@@ -38,7 +39,17 @@ OBLIGATIONS = [
     {"id": "C01_T3_fair_reach", "theorem": "Iora.C01.T3_fair_drain_reachable", "kind": "proved",
      "statement": "T3_fair_drain for every state reachable from a fresh session by any history: 'queued buffers are non-empty' is derived (send does not enqueue n == 0), not assumed"},
     {"id": "C01_T4", "theorem": "Iora.C01.T4_read_loop", "kind": "proved",
-     "statement": "the read loop delivers exactly the data answers before the first non-data answer, in order, each once, stops there, and closes iff that answer is eof/error"},
+     "statement": "with the drain loop (the loop shape extracted from readAvail: true in ET and LT): the read loop delivers exactly the data answers before the first non-data answer, in order, each once, stops there, and closes iff that answer is eof/error"},
+    {"id": "C01_T4_default", "theorem": "Iora.C01.T4_default_drains", "kind": "proved",
+     "statement": "the model's default configuration (regenerated readAvailDrainsLevelTriggered) reads until the channel blocks in edge-triggered AND level-triggered mode"},
+    {"id": "C01_T4_run", "theorem": "Iora.C01.T4_run_delivered_eq_received", "kind": "proved",
+     "statement": "whole histories: for every input history from a fresh session the bytes handed to the data callback = the bytes recv/SSL_read returned, in order, each once (state and outputs of the whole run)"},
+    {"id": "C01_T4_env", "theorem": "Iora.C01.T4_wakeup_drains_environment", "kind": "proved",
+     "statement": "one readAvail call with the drain loop, answered by an environment holding kernel-buffered records AND plaintext already buffered inside OpenSSL (which no epoll event announces), delivers all of it in order, for every chunk size > 0"},
+    {"id": "C01_T4_sys", "theorem": "Iora.C01.T4_run_delivered_eq_sent", "kind": "proved",
+     "statement": "closed receive-side system (peer writes into the kernel buffer at any time, epoll wakes only while the kernel buffer is non-empty, a wake-up = one readAvail answered by the environment): with the drain loop, for every interleaving, delivered ++ kernel-buffered = everything the peer sent, nothing stays inside OpenSSL between wake-ups, and whenever epoll is silent everything sent has been delivered"},
+    {"id": "C01_T4_lt_needed", "theorem": "Iora.C01.T4_one_read_per_wakeup_strands_tls_tail", "kind": "proved",
+     "statement": "witness: with one read per readiness notification in level-triggered mode a TLS record larger than ioReadChunk leaves its tail inside OpenSSL with the kernel buffer empty — never delivered while the session stays open (the readAvail loop fact is load-bearing)"},
     {"id": "C01_T5", "theorem": "Iora.C01.T5_per_thread_fifo", "kind": "proved",
      "statement": "for every schedule of enqueue micro-steps under the mutex and every thread count: the dispatched ++ queued commands of thread t are exactly 0..k-1 in order with k = (completed enqueue calls of t) + (1 if t is between its store and its unlock) — so nothing is lost, duplicated or reordered — and every queued command belongs to one of the n threads"},
     {"id": "C01_one_command", "theorem": "Iora.C01.send_is_one_command", "kind": "proved",
@@ -49,8 +60,30 @@ OBLIGATIONS = [
      "statement": "T1 o T5: for any number of sender threads and every enqueue schedule, if the session's Send commands are the dispatched commands in dispatch order, each dispatched send's bytes are contiguous on the wire between the bytes of the commands dispatched before and after it"},
     {"id": "C01_T5_mutex_needed", "theorem": "Iora.C01.T5_needs_mutex", "kind": "proved",
      "statement": "without the mutex a 2-thread schedule loses a command (the translator fact is load-bearing)"},
+    {"id": "C01_T5_swap_needed", "theorem": "Iora.C01.T5_needs_locked_swap", "kind": "proved",
+     "statement": "without the mutex around process()'s swap (read, then clear) one sender's accepted command is neither queued nor dispatched: processSwapUnderCmdMutex is an argument of Enq.run in T5 and load-bearing"},
+    {"id": "C01_wake", "theorem": "Iora.C01.no_lost_wakeup", "kind": "proved",
+     "statement": "eventfd wake-up protocol (write after push_back inside the lock, drainEvt() before process(), both regenerated): for every schedule of any number of senders and the I/O thread a non-empty command queue is always announced (counter > 0, or I/O thread between drain and swap, or the pushing sender just before its write); whenever the I/O thread sleeps with no enqueue in flight the queue is empty and every accepted command was dispatched"},
+    {"id": "C01_wake_progress", "theorem": "Iora.C01.wakeup_dispatches_all", "kind": "proved",
+     "statement": "from every reachable state with the lock free, three steps of the I/O thread alone (wake, drainEvt, process) take every queued command"},
+    {"id": "C01_wake_order_needed", "theorem": "Iora.C01.wakeup_needs_drain_before_process", "kind": "proved",
+     "statement": "witness: with process(); drainEvt(); a command enqueued between swap and drain stays queued while the I/O thread sleeps (loopDrainBeforeProcess is load-bearing)"},
+    {"id": "C01_wake_write_needed", "theorem": "Iora.C01.wakeup_needs_write_after_push", "kind": "proved",
+     "statement": "witness: with the eventfd write before the locked push_back the I/O thread can swap an empty queue and sleep with one command queued (enqueueWakeAfterPushUnderLock is load-bearing)"},
+    {"id": "C01_close_arm", "theorem": "Iora.C01.close_arm_spec", "kind": "proved",
+     "statement": "the Close arm of process(): a timer-originated close (connect timeout / handshake timeout / write stall) is dropped without output exactly when its condition no longer holds, otherwise and for application closes it is closeNow"},
+    {"id": "C01_T6_shutdown", "theorem": "Iora.C01.T6_shutdown", "kind": "proved",
+     "statement": "shutdownDrain: the session is closed with the close output, the residual accepted-but-undispatched Send payloads count as accepted and the wire is still a prefix of everything accepted"},
+    {"id": "C01_retry", "theorem": "Iora.C01.retry_same_buffer", "kind": "proved",
+     "statement": "close-on-backpressure: from every open session with queue front b, for every further history, the next ::send/SSL_write issued passes exactly b (or none is ever issued): the OpenSSL same-buffer retry rule"},
+    {"id": "C01_retry_block", "theorem": "Iora.C01.retry_block_leaves_front", "kind": "proved",
+     "statement": "a refused direct write leaves its payload as the whole queue (or the session closed); a drain loop stopped by a refusal leaves the refused buffer (argument of its last write) at the front"},
+    {"id": "C01_retry_policy", "theorem": "Iora.C01.retry_moves_under_drop_oldest", "kind": "proved",
+     "statement": "scope witness: with drop-oldest the refused buffer is popped and the next SSL_write passes another buffer"},
+    {"id": "C01_batch", "theorem": "Iora.C01.batch_order_is_order_preserving_permutation", "kind": "proved",
+     "statement": "EventBatchProcessor::processBatch order (the batchOrder function the acceptor uses): a permutation of the batch in which the events of one fd keep their relative order"},
     {"id": "C01_T6", "theorem": "Iora.C01.T6_drop_only_with_close", "kind": "proved",
-     "statement": "close-on-backpressure: a step either keeps every accepted byte (wire ++ pending) or closes the session in the same step and emits the close output; a closed session emits nothing"},
+     "statement": "close-on-backpressure: a step (sends, application and timer-originated close commands with their stale-timeout guards, shutdownDrain, connect probe, every epoll event) either keeps every accepted byte (wire ++ pending) or closes the session in the same step and emits the close output; a closed session emits nothing"},
     {"id": "C01_T6_policy", "theorem": "Iora.C01.T6_drop_oldest_breaks_stream", "kind": "proved",
      "statement": "scope witness: with closeOnBackpressure=false the wire is no longer a prefix of the accepted stream (a half-written front buffer is dropped)"},
     {"id": "C01_obs_spin", "theorem": "Iora.C01.obs_handshake_window_spins", "kind": "proved",
@@ -60,7 +93,7 @@ OBLIGATIONS = [
     {"id": "C01_obs_readwant", "theorem": "Iora.C01.obs_read_wantWrite_not_armed", "kind": "proved",
      "statement": "observation: SSL_read answering WANT_WRITE in the open state does not register EPOLLOUT (delivery delayed until the next EPOLLIN; nothing lost)"},
     {"id": "C01_gen", "theorem": "Iora.C01.gen_conforms", "kind": "proved",
-     "statement": "the requeue offsets / queue ends / lock scopes, updateInterest's mask computation, its single unconditional modEpoll and its call sites, the tlsMode/tlsState assignment sites and the sendAsync / Transport delegation extracted from the source are the ones the model mirrors"},
+     "statement": "the requeue offsets / queue ends / lock scopes, updateInterest's mask computation, its single unconditional modEpoll and its call sites, the tlsMode/tlsState assignment sites, the sendAsync / Transport send, sendAsync, sendSync, sendSyncCancellable delegation (one engine send, no loop), send()'s callee list and return count, the eventfd write/drain order, the readAvail loop shape and exits, the Close-arm guards and the processBatch shape extracted from the source are the ones the model mirrors"},
 ]
 
 BOUNDARY_SIZES = [1, 2, 3, 255, 256, 257, 1459, 1460, 1461, 4095, 4096, 4097, 16383, 16384, 16385, 65535, 65536, 65537]
@@ -153,6 +186,11 @@ def gen_case(rng, idx, quick, corner=None):
     if rng.chance(1, 10):
         sends.insert(rng.below(len(sends) + 1), [0, 0, rng.below(thr), rng.choice([0, 100])])
         c["expectend"] = 1
+    elif rng.chance(1, 8):
+        # a close command as the TimerService callbacks enqueue it (pat 1 connect timeout, 2 handshake timeout, 3 write stall):
+        # process() must drop it when it is stale and close otherwise
+        sends.insert(rng.below(len(sends) + 1), [0, rng.range(1, 3), rng.below(thr), rng.choice([0, 100])])
+        c["expectend"] = 1
     c["sends"] = sends
     nf = rng.range(4, 60)
     wf = gen_faults(rng, nf, tls, "w")
@@ -161,6 +199,9 @@ def gen_case(rng, idx, quick, corner=None):
         c["expectend"] = 1
     c["wf"] = no_edge(rng, wf)
     c["rf"] = gen_faults(rng, rng.range(2, 30), tls, "r")
+    if rng.chance(1, 16):
+        c["rf"].insert(rng.below(min(len(c["rf"]), 4) + 1), "e")      # a fatal recv / SSL_read error: everything pending goes with the reported close
+        c["expectend"] = 1
     # spurious WANT_WRITE only: a spurious WANT_READ before the first flight was written is not something OpenSSL can answer
     c["hf"] = ["w" for _ in range(rng.range(1, 3))] if tls and rng.chance(1, 3) else []
     if tls and rng.chance(1, 25):
@@ -195,7 +236,7 @@ def gen_case(rng, idx, quick, corner=None):
         if rng.chance(1, 12):
             c["gp"] = c["gp"][:-1] + "r"
             c["expectend"] = 1
-    c["async"] = int(rng.chance(1, 3))            # every second send through sendAsync
+    c["async"] = rng.choice([0, 0, 0, 1, 2, 3])   # which Transport entry points the senders use: send / sendAsync / sendSync / sendSyncCancellable
     # a second live session on the same engine with its own payloads
     c["s2"] = [[rng.choice([1, 100, 5000, 70000, rng.range(1, 2000)]), rng.range(0, 250)] for _ in range(rng.range(1, 5))] if rng.chance(1, 4) else []
     # unlocked senders: the Transport::send calls of the sender threads really overlap; payloads carry (thread, seq).
@@ -205,6 +246,14 @@ def gen_case(rng, idx, quick, corner=None):
         c["nolock"] = 1
         c["s2"] = []          # the queue position of a second session's commands among unlocked sends would be unknown to the acceptor
         c["sends"] = [[max(x[0], 8), x[1], x[2], 0 if rng.chance(3, 4) else x[3]] for x in c["sends"] if x[0] > 0]
+    # one send from inside the accept / connect callback and one from inside the close callback (both on the I/O thread)
+    c["cbsend"] = [rng.choice([1, 100, 5000, 70000]), rng.range(0, 250)] if not c["nolock"] and rng.chance(1, 6) else []
+    c["clsend"] = [rng.choice([1, 100, 5000]), rng.range(0, 250)] if not c["nolock"] and rng.chance(1, 8) else []
+    # SO_ERROR != 0 at the k-th probe on the session (connect probe / first check of an EPOLLOUT event): reported close
+    c["so"] = 0
+    if not c["nolock"] and rng.chance(1, 16):      # (with unlocked senders the accepted order is rebuilt from the peer's stream: nothing may end the session early)
+        c["so"] = rng.range(1, 4)
+        c["expectend"] = 1
     c["cat"] = "random"
     return c
 
@@ -237,7 +286,7 @@ def gen_boundary_cases(rng, start, n, big_ok=False):
                 sends.append([rng.choice([8, 3000, 70000]), 0, 0, 0])
             c = base_case(rng, i, thr=thr, nolock=1, gate=1, sends=sends, sndbuf=rng.choice([0, 0, 32768]),
                           wf=no_edge(rng, [rng.choice(["p", "p", "f500", "c16384", "a"]) for _ in range(rng.range(0, 5))]),
-                          cat="boundary-one-send-one-command", **{"async": int(rng.chance(1, 3))})
+                          cat="boundary-one-send-one-command", **{"async": rng.choice([0, 1, 2, 2, 3, 3])})
             if c["tls"]:
                 c["wf"] = ["w" if x == "a" else x for x in c["wf"]]
         elif k == 5:      # the plain connect window: connect completion reported late ("not yet" 1-3 times), sends queued meanwhile
@@ -261,7 +310,7 @@ def gen_boundary_cases(rng, start, n, big_ok=False):
             else:
                 thr = rng.range(2, 4)
                 sends = [[rng.choice([8, 9, 100, 3000, 20000]), 0, rng.below(thr), 0] for _ in range(rng.range(6, 24))]
-                c = base_case(rng, i, thr=thr, nolock=1, sends=sends, sndbuf=rng.choice([0, 4608]), **{"async": int(rng.chance(1, 2))},
+                c = base_case(rng, i, thr=thr, nolock=1, sends=sends, sndbuf=rng.choice([0, 4608]), **{"async": rng.choice([0, 1, 2, 3])},
                               wf=no_edge(rng, [rng.choice(["p", "c1", "m1", "a", "f500"]) for _ in range(rng.range(0, 8))]), cat="boundary-unlocked-senders")
                 if c["tls"]:
                     c["wf"] = ["w" if x == "a" else x for x in c["wf"]]
@@ -279,6 +328,31 @@ def gen_boundary_cases(rng, start, n, big_ok=False):
             c = base_case(rng, i, sends=sends, mwq=mwq, expectend=1, cat="boundary-backpressure",
                           wd=[rng.choice([0, 200, 1000]) for _ in range(6)])
             c["wf"] = (["w"] if c["tls"] else ["a"]) * rng.choice([3, 40, 200])
+        elif k == 2 and len(out) % 18 == 2:
+            # level-triggered TLS with ioReadChunk below the record size: the tail of a record sits inside OpenSSL, no epoll event
+            # announces it — only the drain loop of readAvail delivers it
+            chunk = rng.choice([1000, 4096, 4096, 16383])
+            pw = [[rng.choice([chunk + 1, chunk + 4, 12004, 16384, 3 * chunk + 7]), rng.range(0, 250), rng.choice([0, 200])] for _ in range(rng.range(1, 3))]
+            c = base_case(rng, i, tls=1, et=0, chunk=chunk, pw=pw, sends=[[10, 1, 0, 0]], cat="boundary-lt-tls-record-tail")
+        elif k == 4 and len(out) % 18 in (4, 13):
+            # timer-originated close commands: stale (condition gone: dropped, the stream goes on) and effective (write stall with the
+            # queue refused; handshake timeout inside the handshake window; connect timeout inside the connect window)
+            o = rng.range(1, 3)
+            pre = [[rng.choice([1, 100, 5000, 40000]), rng.range(0, 250), 0, 0] for _ in range(rng.range(1, 4))]
+            post = [[rng.choice([1, 100, 5000]), rng.range(0, 250), 0, 0] for _ in range(rng.range(1, 3))]
+            eff = rng.chance(1, 2)
+            kw = {}
+            if o == 3:
+                kw = dict(wf=(["a"] * rng.choice([4, 40])) if eff else [], wd=[rng.choice([0, 200])] * 4)
+            elif o == 2:
+                kw = dict(tls=1, early=int(eff), hsdelay=rng.choice([1500, 3000]) if eff else 0)
+            else:
+                kw = dict(role="cli", tls=0, early=int(eff), gp=("n" * rng.range(3, 5)) if eff else "")
+                if eff:
+                    pre = pre[:rng.below(2)]        # the close must be dispatched while the connect is still pending
+            c = base_case(rng, i, sends=pre + [[0, o, 0, 0]] + post, expectend=1, cat="boundary-close-origin", **kw)
+            if o == 3 and c["tls"]:
+                c["wf"] = ["w" if x == "a" else x for x in c["wf"]]
         elif k == 2:    # reads around ioReadChunk
             chunk = rng.choice([1, 2, 1000, 4096, 65536])
             pw = [[max(1, chunk + d), rng.range(0, 250), rng.choice([0, 200])] for d in (rng.choice([-1, 0, 1]), 0, 1, chunk)]
@@ -309,10 +383,11 @@ def case_line(c):
     def lst(xs, sub="."):
         return ",".join(sub.join(str(v) for v in x) if isinstance(x, (list, tuple)) else str(x) for x in xs) if xs else "-"
     return ("case id=%s role=%s tls=%d et=%d batch=%d thr=%d sndbuf=%d rcvbuf=%d prcvbuf=%d mwq=%d cob=%d chunk=%d early=%d hsdelay=%d "
-            "expectend=%d lossy=%d async=%d nolock=%d gate=%d gp=%s s2=%s pclose=%s peer=%s sends=%s pw=%s echo=%s wf=%s rf=%s hf=%s wd=%s") % (
+            "expectend=%d lossy=%d async=%d nolock=%d gate=%d so=%d gp=%s s2=%s cbsend=%s clsend=%s pclose=%s peer=%s sends=%s pw=%s echo=%s wf=%s rf=%s hf=%s wd=%s") % (
         c["id"], c["role"], c["tls"], c["et"], c["batch"], c["thr"], c["sndbuf"], c["rcvbuf"], c["prcvbuf"], c["mwq"], c["cob"], c["chunk"],
-        c["early"], c["hsdelay"], c["expectend"], int(c["cob"] == 0 and c["mwq"] < 1024), c.get("async", 0), c.get("nolock", 0), c.get("gate", 0),
-        c.get("gp") or "-", lst(c.get("s2") or []), "-" if c["pclose"] < 0 else str(c["pclose"]), ".".join(str(v) for v in c["peer"]),
+        c["early"], c["hsdelay"], c["expectend"], int(c["cob"] == 0 and c["mwq"] < 1024), c.get("async", 0), c.get("nolock", 0), c.get("gate", 0), c.get("so", 0),
+        c.get("gp") or "-", lst(c.get("s2") or []), ".".join(str(v) for v in c.get("cbsend") or []) or "-", ".".join(str(v) for v in c.get("clsend") or []) or "-",
+        "-" if c["pclose"] < 0 else str(c["pclose"]), ".".join(str(v) for v in c["peer"]),
         lst(c["sends"]), lst(c["pw"]), lst(c.get("echo") or []), lst(c["wf"]), lst(c["rf"]), lst(c["hf"]), lst(c["wd"]))
 
 
@@ -380,8 +455,9 @@ def run_harness(ctx, hb, cases, workers):
             if any(m.split()[1] == str(bad["id"]) for m in mach):
                 out_res[bad["id"]] = {"machinery": [m for m in mach if m.split()[1] == str(bad["id"])][0]}
             else:
-                why = "hang" if (out and out[-1] == "hang") or rc == 97 else classify_crash(rc, err)
-                out_res[bad["id"]] = {"crash": why, "stderr": err[-1500:], "partial": res.get(str(bad["id"]))}
+                why = "hang" if (out and out[-1].startswith("hang")) or rc == 97 else classify_crash(rc, err)
+                m_lw = re.search(r"lostwake=(-?\d+)", out[-1]) if out and out[-1].startswith("hang") else None
+                out_res[bad["id"]] = {"crash": why, "stderr": err[-1500:], "partial": res.get(str(bad["id"])), "lostwake": int(m_lw.group(1)) if m_lw else -1}
             todo = todo[done + 1:]
         return out_res, out_mach, out_cnt
 
@@ -419,6 +495,9 @@ def monitor(c, r):
         n_clear = sum(1 for s in r["segs"] for t in s.split(";") if t.startswith("W0:"))
         if n_clear:
             bad.append("T2: %d plain send() call(s) on a TLS session (clear text on the wire)" % n_clear)
+        n_clear_r = sum(1 for s in r["segs"] for t in s.split(";") if t.startswith("R0:"))
+        if n_clear_r:
+            bad.append("T2: %d plain recv() call(s) on a TLS session (bytes taken from the socket behind OpenSSL's back)" % n_clear_r)
         if f["peer_hs"] == "0" and f["close_why"] == "shutdown" and f["note"] == "peer-handshake-failed":
             bad.append("T2: the TLS peer's handshake failed although the engine reported no handshake failure")
     if not drop_policy and g("peer_diff") != -1:
@@ -452,6 +531,8 @@ def monitor(c, r):
     if g("closed_cb") > 1:
         bad.append("T6: the close callback fired %d times" % g("closed_cb"))
     early = f["close_why"] != "shutdown"
+    if int(f.get("lostwake", "0")) > 0:
+        bad.append("T5/T3: lost wake-up — %s command(s) enqueue() had accepted were still in the command queue, never dispatched, after seconds without any progress (the I/O thread sleeps in epoll_wait; eventfd write / drainEvt / process order)" % f["lostwake"])
     if drop_policy:
         pass
     elif g("stall"):
@@ -498,6 +579,36 @@ def check_cases(ctx, hb, cases, workers, dist, tag="", solo=False):
             n_mach += 1
             continue
         if "crash" in r:
+            if r["crash"] == "hang" and r.get("lostwake", -1) > 0:
+                ctx.violation("property", "T5/T3: lost wake-up — the case hung with %d command(s) enqueue() had accepted still in the command queue, never dispatched (eventfd write / drainEvt / process order)" % r["lostwake"],
+                              replay_obj(c, r.get("partial") or {}, {"crash": r["crash"], "stderr": r.get("stderr")}), found_input=True)
+                continue
+            hs = ctx.extra.setdefault("hang_reruns", {"done": 0, "reproduced": 0})
+            if r["crash"] == "hang" and not solo and not hs["reproduced"]:
+                # R7: the per-case watchdog on a loaded / paused machine: a hang counts only when a hanging case, run alone, fails
+                # again (at most two such re-runs per check: once one has reproduced, later hangs are taken at face value; when the
+                # budget is used up without a reproduction, later hangs are machinery as well)
+                again = None
+                if hs["done"] >= 2:
+                    unreproduced.append("%s: hang (watchdog), re-run budget used up" % c["id"])
+                    continue
+                hs["done"] += 1
+                for k in range(1):
+                    cc = dict(c)
+                    cc["id"] = "%s-solo%d" % (c["id"], k)
+                    rr, _, _ = run_harness(ctx, hb, [cc], 1)
+                    r2 = rr.get(cc["id"])
+                    if r2 and ("crash" in r2 or (r2.get("fin") and monitor(cc, r2))):
+                        again = (cc, r2)
+                        break
+                if again is None:
+                    unreproduced.append("%s: hang (watchdog) not reproduced alone" % c["id"])
+                    continue
+                hs["reproduced"] += 1
+                c, r = again
+                if "crash" not in r:
+                    ctx.violation("property", monitor(c, r)[0], replay_obj(c, r, {"failures": monitor(c, r)[:5], "first_run": "hang"}), found_input=True)
+                    continue
             ctx.violation("property", "T1: the engine crashed / hung under this fault schedule: %s" % r["crash"],
                           replay_obj(c, r.get("partial") or {}, {"crash": r["crash"], "stderr": r.get("stderr")}), found_input=True)
             continue
@@ -512,7 +623,7 @@ def check_cases(ctx, hb, cases, workers, dist, tag="", solo=False):
         good.append((c, r))
     if n_mach:
         raise RuntimeError("harness machinery failure (cannot bind / start): %s" % machinery[:2])
-    mout, mrc, merr = ctx.run_lines(ctx.model_argv(COMPONENT), mlines, timeout=1500)
+    mout, mrc, merr = ctx.run_lines(ctx.model_argv(COMPONENT), mlines, timeout=1500) if mlines else ([], 0, "")
     if mrc != 0 or len(mout) != len(mlines):
         raise RuntimeError("model driver failed rc=%s lines=%d/%d: %s" % (mrc, len(mout), len(mlines), merr[-400:]))
     for (c, r), (a, b) in zip(good, spans):
@@ -553,6 +664,17 @@ def check_cases(ctx, hb, cases, workers, dist, tag="", solo=False):
         dist["segments"] += len(r["segs"])
         if len(ctx.cov["samples"]) < 6 and nontrivial and ctx.rng.chance(1, 20):
             ctx.sample({"op": case_line(c)[:300], "acc": r["acc"][:8], "segs": [s[:120] for s in r["segs"][:6]], "fin": r["fin"]})
+        api = [int(x) for x in r["fin"].get("api", "0.0.0.0").split(".")]
+        for nm, v in zip(("send", "sendAsync", "sendSync", "sendSyncCancellable"), api):
+            dist["api_calls"][nm] = dist["api_calls"].get(nm, 0) + v
+        oc = [int(x) for x in r["fin"].get("oclose", "0.0.0.0").split(".")]
+        for nm, v in zip(("app", "connect-timeout", "handshake-timeout", "write-stall"), oc):
+            dist["close_commands"][nm] = dist["close_commands"].get(nm, 0) + v
+        for nm in ("cbsend", "clsend"):
+            if int(r["fin"].get(nm, "0")):
+                dist["reached"]["send_from_%s_callback" % ("accept_or_connect" if nm == "cbsend" else "close")] = dist["reached"].get("send_from_%s_callback" % ("accept_or_connect" if nm == "cbsend" else "close"), 0) + 1
+        if c.get("gate"):
+            dist["reached"]["gated_one_send_api_%d" % c.get("async", 0)] = dist["reached"].get("gated_one_send_api_%d" % c.get("async", 0), 0) + 1
         if fails and all(re.match(r"T[34]: stall", x) for x in fails) and not rejects and not solo:
             # R6: a stall seen once in a loaded parallel run is re-run alone; only a stall that shows again is a finding
             again = None
@@ -580,7 +702,8 @@ def check_cases(ctx, hb, cases, workers, dist, tag="", solo=False):
     ctx.cov["traces_validated_against_impl"] += len(good)
     if unreproduced:
         ctx.notes.append("stall not reproduced in 3 solo re-runs (machinery, not a finding): %s" % unreproduced[:3])
-        raise RuntimeError("a stall reported by the watchdog did not reproduce when the case was re-run alone (load / scheduling): %s" % unreproduced[:2])
+        if not ctx.violations:      # with reproduced failing inputs at hand the unreproduced one is only a note
+            raise RuntimeError("a stall reported by the watchdog did not reproduce when the case was re-run alone (load / scheduling): %s" % unreproduced[:2])
     return len(good)
 
 
@@ -623,7 +746,8 @@ def replay(ctx):
 
 
 def new_dist():
-    return {"category": {}, "observations": {}, "model_branches": {}, "config": {}, "reached": {}, "close_why": {}, "sends": 0, "bytes": 0, "write_calls": 0, "segments": 0}
+    return {"category": {}, "observations": {}, "model_branches": {}, "config": {}, "reached": {}, "close_why": {}, "api_calls": {}, "close_commands": {},
+            "sends": 0, "bytes": 0, "write_calls": 0, "segments": 0}
 
 
 def run(ctx: Ctx):
@@ -664,14 +788,17 @@ def run(ctx: Ctx):
     ctx.extra["not_proved"] = [
         "liveness is stated as T3_rearm (a writable event is armed whenever the queue is non-empty) + T3_fair_drain (enough productive writable events empty the queue); that epoll delivers the armed event is an assumption about the kernel, not a theorem",
         "doConnect / onListener / timers / GC closes are C02 (here: 'session closed' is an output); TLS configuration is C07",
-        "EventBatchProcessor (special fds first, then the others) is not modelled in Lean: the routing order lives in the acceptor driver and is tied by the harness only (batching on/off cases)",
-        "the eventfd wake-up is not modelled: that an accepted command is eventually DISPATCHED (process() runs after enqueue's write to the eventfd) is checked by the harness only (every accepted command must be taken: T5 monitor)",
+        "EventBatchProcessor: the handling order of one batch is the Lean function batchOrder (theorem: order-preserving permutation; the acceptor uses it; shape facts in gen_conforms); adaptive batch sizing, the epoll_wait timeout and the statistics are not modelled",
+        "the eventfd wake-up is modelled in a counting abstraction (Model/TcpWake.lean: one critical-section slot stands for any number of senders, commands are counted, not named): no_lost_wakeup / wakeup_dispatches_all hold for every schedule of that model; it is tied to the code by the order facts (write after push_back under the lock, drainEvt before process in both loops, eventfd registered level-triggered) and by the harness' lost-wake-up monitor, not by exhaustive scheduling of the real code; Wake and Enq (T5) are two models of the same functions, their composition is not one theorem",
+        "the catch block of process() (an exception thrown half-way through doSend) is not modelled; C++ exceptions are outside the model",
+        "In.shutdown models shutdownDrain's residual swap; the correspondence run produces a non-empty residual only through sends issued from inside the close callback during stop() (branch counter shutdown:residual-sends-dropped), not through sender threads racing stop()",
+        "Rd.Env (kernel buffer + plaintext buffered inside OpenSSL, invisible to epoll) is an environment model: T4_wakeup_drains_environment is about every such environment, that OpenSSL behaves like one is an assumption exercised by the level-triggered TLS small-chunk cases",
         "the model merges Session::tlsMode and tlsState into one field; that they are only ever set together is pinned by the translator facts tlsAssignments / tlsDefaults in gen_conforms, not proved about the C++",
         "T5's micro-step model is tied to enqueue()/process() by the lock-scope facts and by unlocked concurrent senders in the harness (per-thread order + integrity at the peer), not by exhaustive scheduling of the real code",
     ]
     ctx.assumptions += [
         "kernel TCP: bytes accepted by send() are delivered to the peer in order, or the connection ends",
-        "OpenSSL record layer: SSL_write returning n>0 means n plaintext bytes will be delivered in order; a WANT_* retry passes the same buffer (checked: same length + content hash in the trace)",
+        "OpenSSL record layer: SSL_write returning n>0 means n plaintext bytes will be delivered in order; OpenSSL may emit records of a refused SSL_write before answering WANT_* (that is why the retry must pass the same buffer: proved as retry_same_buffer for the model, and checked per trace: same length + content hash); SSL_read returns plaintext it has buffered before touching the socket, and that plaintext raises no epoll event",
         "epoll: an EPOLL_CTL_MOD carrying EPOLLOUT on a writable socket yields an event (ET and LT). After an injected EAGAIN / WANT_WRITE (which mean 'not writable now') the interposer re-issues the last registered mask, i.e. the edge a kernel delivers when the socket becomes writable again; after the upper-case fault kinds (short write / SSL_write WANT_READ with the socket still writable) NO edge is fabricated, so only the engine's own MOD re-arms an edge-triggered EPOLLOUT",
         "send() may return a short count while the socket stays writable (legal by POSIX; on Linux e.g. under memory pressure)",
         "one TRACED session per engine (a second live session is only monitored for cross-talk/loss); payload sizes 1 B .. 512 KiB (the (int) casts of payload sizes >= 2^31 are outside the explored range)",
